@@ -159,6 +159,32 @@ Proof.
          try (apply repeat_spec in H; discriminate); try contradiction).
 Qed.
 
+Lemma init_obj_props k s w o :
+  init_obj k s w = Some o ->
+  col o = White /\ live o = true /\ ntr o = true /\ okind o = k /\ k <> KSet /\
+  (forall t, In (Some t) (strong o) -> In (Some t) s) /\ (forall t, In (Some t) (weak o) -> In (Some t) w).
+Proof.
+  intros H. destruct k; cbn in H; try discriminate; inversion H; subst; cbn;
+    (repeat split; auto; try discriminate).
+  - intros t [E|[]]. destruct s; [discriminate|]. subst. left; reflexivity.
+  - intros t [].
+  - intros t Ht. destruct s as [|a [|b rest]]; cbn in *.
+    + destruct Ht as [E|[E|[]]]; discriminate.
+    + destruct Ht as [E|[E|[]]]; [auto|discriminate].
+    + destruct Ht as [E|[E|Ht]]; [auto|discriminate|auto].
+Qed.
+
+Lemma in_map_rg c cs t :
+  In (Some t) (map (fun x => match x with Some r' => rg c r' | None => None end) cs) -> exists r', rg c r' = Some t.
+Proof.
+  intros H. apply in_map_iff in H. destruct H as [x [E _]]. destruct x as [r'|]; [eauto|discriminate].
+Qed.
+Lemma in_map_wrg c ws t :
+  In (Some t) (map (fun x => match x with Some r' => wrg c r' | None => None end) ws) -> exists r', wrg c r' = Some t.
+Proof.
+  intros H. apply in_map_iff in H. destruct H as [x [E _]]. destruct x as [r'|]; [eauto|discriminate].
+Qed.
+
 Lemma licence_eqb_eq a b : licence_eqb a b = true -> a = b.
 Proof.
   destruct a, b; cbn; try discriminate; intros H;
